@@ -302,6 +302,10 @@ func (p *eparser) parseUnary() Expr {
 		p.next()
 		return &EUnary{"*", p.parseUnary()}
 	}
+	if p.isOp("&") {
+		p.next()
+		return &EUnary{"&", p.parseUnary()}
+	}
 	return p.parsePostfix()
 }
 
